@@ -326,46 +326,6 @@ func (g *gen) proxyTree(c v1.ProxyConfigurer) obj {
 	return o
 }
 
-type commonL struct {
-	serverAddr string
-	serverPort int64
-	user       string
-	token      string
-	logLevel   string
-	poolCount  int64
-	protocol   string
-	webPort    int64
-}
-
-func (g *gen) commonTree(c commonL) obj {
-	o := obj{}
-	g.put(&o, "serverAddr", c.serverAddr)
-	g.put(&o, "serverPort", c.serverPort)
-	g.put(&o, "user", c.user)
-	au := obj{}
-	g.put(&au, "token", c.token)
-	if len(au) > 0 {
-		o = append(o, kv{"auth", au})
-	}
-	lg := obj{}
-	g.put(&lg, "level", c.logLevel)
-	if len(lg) > 0 {
-		o = append(o, kv{"log", lg})
-	}
-	tr := obj{}
-	g.put(&tr, "poolCount", c.poolCount)
-	g.put(&tr, "protocol", c.protocol)
-	if len(tr) > 0 {
-		o = append(o, kv{"transport", tr})
-	}
-	ws := obj{}
-	g.put(&ws, "port", c.webPort)
-	if len(ws) > 0 {
-		o = append(o, kv{"webServer", ws})
-	}
-	return o
-}
-
 // every object of the tree, with a label of its nesting level
 func walkObjs(o *obj, label string, f func(label string, at *obj)) {
 	var rec func(p *obj, label string)
@@ -375,7 +335,7 @@ func walkObjs(o *obj, label string, f func(label string, at *obj)) {
 			switch x := (*p)[i].v.(type) {
 			case obj:
 				// string->string maps accept any key: not a place for an unknown field
-				if k := (*p)[i].k; k == "annotations" || k == "metadatas" || k == "set" {
+				if k := (*p)[i].k; k == "annotations" || k == "metadatas" || k == "set" || k == "additionalEndpointParams" || k == "featureGates" {
 					continue
 				}
 				rec(&x, label+"."+(*p)[i].k)
@@ -423,10 +383,193 @@ func render(o obj) map[string][]byte {
 
 var formatNames = []string{"toml", "yaml", "json"}
 
-func commonDump(c *v1.ClientCommonConfig) string {
-	return fmt.Sprintf("addr=%q port=%d user=%q token=%q level=%q to=%q maxDays=%d pool=%d proto=%q web=%d webAddr=%q method=%q",
-		c.ServerAddr, c.ServerPort, c.User, c.Auth.Token, c.Log.Level, c.Log.To, c.Log.MaxDays, c.Transport.PoolCount,
-		c.Transport.Protocol, c.WebServer.Port, c.WebServer.Addr, c.Auth.Method)
+// one document kind (client / server): how to load it and what must come out
+type docKind struct {
+	name     string
+	load     func(doc []byte, strict bool) (string, error) // LoadConfigure into the section's struct, dumped
+	loadFile func(path string) (string, error)             // the file entry point (template + Complete), dumped
+}
+
+func dumpClient(all *v1.ClientConfig) string {
+	items := []string{coqOfAny(&all.ClientCommonConfig)}
+	for _, p := range all.Proxies {
+		items = append(items, coqCfg(p.ProxyConfigurer))
+	}
+	for _, v := range all.Visitors {
+		items = append(items, coqVisitor(v.VisitorConfigurer))
+	}
+	return strings.Join(items, "\n")
+}
+
+func coqVisitor(v v1.VisitorConfigurer) string {
+	return "(" + reflect.TypeOf(v).Elem().Name() + " " + coqOfAny(v) + ")"
+}
+
+var clientKind = docKind{
+	name: "client",
+	load: func(doc []byte, strict bool) (string, error) {
+		var all v1.ClientConfig
+		if err := config.LoadConfigure(doc, &all, strict); err != nil {
+			return "", err
+		}
+		return dumpClient(&all), nil
+	},
+	loadFile: func(path string) (string, error) {
+		cc, pcs, vcs, legacy, err := config.LoadClientConfig(path, true)
+		if err != nil {
+			return "", err
+		}
+		if legacy {
+			return "", fmt.Errorf("taken for the legacy ini format")
+		}
+		items := []string{coqOfAny(cc)}
+		for _, p := range pcs {
+			items = append(items, coqCfg(p))
+		}
+		for _, v := range vcs {
+			items = append(items, coqVisitor(v))
+		}
+		return strings.Join(items, "\n"), nil
+	},
+}
+
+var serverKind = docKind{
+	name: "server",
+	load: func(doc []byte, strict bool) (string, error) {
+		var c v1.ServerConfig
+		if err := config.LoadConfigure(doc, &c, strict); err != nil {
+			return "", err
+		}
+		return coqOfAny(&c), nil
+	},
+	loadFile: func(path string) (string, error) {
+		c, legacy, err := config.LoadServerConfig(path, true)
+		if err != nil {
+			return "", err
+		}
+		if legacy {
+			return "", fmt.Errorf("taken for the legacy ini format")
+		}
+		return coqOfAny(c), nil
+	},
+}
+
+func firstLineDiff(a, b string) string {
+	la, lb := strings.Split(a, "\n"), strings.Split(b, "\n")
+	for i := range la {
+		if i >= len(lb) || la[i] != lb[i] {
+			x := ""
+			if i < len(lb) {
+				x = lb[i]
+			}
+			// common prefix length, to point at the differing field
+			k := 0
+			for k < len(la[i]) && k < len(x) && la[i][k] == x[k] {
+				k++
+			}
+			lo := k - 200
+			if lo < 0 {
+				lo = 0
+			}
+			hi := func(s string) int {
+				if k+200 < len(s) {
+					return k + 200
+				}
+				return len(s)
+			}
+			return fmt.Sprintf("item %d: want ...%s got ...%s", i, la[i][lo:hi(la[i])], x[lo:hi(x)])
+		}
+	}
+	return "lengths differ"
+}
+
+// checkDoc runs one logical document through the three formats, both strict modes, the file entry
+// point, and the unknown-field injection.
+func (d *drv) checkDoc(g *gen, k docKind, tree obj, want, wantCompleted string, viaFile bool, st, levels map[string]int, dir string) {
+	docs := render(tree)
+	st["documents"]++
+	st["documents_"+k.name]++
+	for _, strict := range []bool{false, true} {
+		for _, f := range formatNames {
+			got, err := k.load(docs[f], strict)
+			if err != nil {
+				d.fail("format-load:"+k.name+":"+f, fmt.Sprintf("a valid %s document is rejected (strict=%v): %v", f, strict, err), string(docs[f]))
+				continue
+			}
+			st["loads"]++
+			if got != want {
+				d.fail("format-structure:"+k.name+":"+f, "the structure loaded from "+f+" differs from the logical configuration it was written from",
+					firstLineDiff(want, got)+"\n"+string(docs[f]))
+			}
+		}
+	}
+	if viaFile {
+		for _, f := range formatNames {
+			p := filepath.Join(dir, "doc."+f)
+			if f == "toml" && g.chance(0.5) {
+				p = filepath.Join(dir, "doc.conf") // the extension must not matter
+			}
+			_ = os.WriteFile(p, docs[f], 0o644)
+			got, err := k.loadFile(p)
+			_ = os.Remove(p)
+			if err != nil {
+				d.fail("format-file-load:"+k.name+":"+f, fmt.Sprintf("the file entry point rejects a valid %s file: %v", f, err), string(docs[f]))
+				continue
+			}
+			st["file_loads"]++
+			if got != wantCompleted {
+				d.fail("format-defaults:"+k.name+":"+f, "the completed structure loaded from a "+f+" file differs from the logical configuration with defaults applied",
+					firstLineDiff(wantCompleted, got)+"\n"+string(docs[f]))
+			}
+		}
+	}
+	// an unknown key at one nesting level
+	var spots []string
+	probe := deepCopy(tree)
+	walkObjs(&probe, "top", func(label string, at *obj) { spots = append(spots, label) })
+	target := g.intn(len(spots))
+	bad := deepCopy(tree)
+	idx := 0
+	label := ""
+	walkObjs(&bad, "top", func(l string, at *obj) {
+		if idx == target {
+			label = l
+			pos := g.intn(len(*at) + 1)
+			nk := kv{g.pick([]string{"unknownField", "remotePorts", "Name2", "x-y"}), g.pick([]string{"v", ""})}
+			*at = append((*at)[:pos], append(obj{nk}, (*at)[pos:]...)...)
+		}
+		idx++
+	})
+	levels[k.name+":"+label]++
+	bdocs := render(bad)
+	for _, f := range formatNames {
+		if _, err := k.load(bdocs[f], true); err == nil {
+			d.fail("strict-accepts-unknown:"+k.name+":"+f+":"+label, "strict mode accepts a document with an unknown field at "+label+" ("+f+")", string(bdocs[f]))
+		} else {
+			st["strict_unknown_rejected"]++
+		}
+		got, err := k.load(bdocs[f], false)
+		if err != nil {
+			d.fail("nonstrict-rejects-unknown:"+k.name+":"+f+":"+label, "non-strict mode rejects a document with an unknown field at "+label+" ("+f+"): "+err.Error(), string(bdocs[f]))
+		} else {
+			st["nonstrict_unknown_ignored"]++
+			if got != want {
+				d.fail("nonstrict-unknown-changes-structure:"+k.name+":"+f, "an ignored unknown field changes the loaded structure", string(bdocs[f]))
+			}
+		}
+	}
+}
+
+func cloneProxy(c v1.ProxyConfigurer) v1.ProxyConfigurer {
+	cp := reflect.New(reflect.TypeOf(c).Elem())
+	cp.Elem().Set(reflect.ValueOf(c).Elem())
+	return cp.Interface().(v1.ProxyConfigurer)
+}
+
+func cloneVisitor(c v1.VisitorConfigurer) v1.VisitorConfigurer {
+	cp := reflect.New(reflect.TypeOf(c).Elem())
+	cp.Elem().Set(reflect.ValueOf(c).Elem())
+	return cp.Interface().(v1.VisitorConfigurer)
 }
 
 func (d *drv) runFormats(g *gen, n int) map[string]any {
@@ -438,156 +581,52 @@ func (d *drv) runFormats(g *gen, n int) map[string]any {
 	}
 	_ = os.MkdirAll(dir, 0o755)
 	for i := 0; i < n; i++ {
-		cl := commonL{
-			serverAddr: g.pick([]string{"", "127.0.0.1", "frps.example.com", "::1"}),
-			serverPort: g.pickInt([]int64{0, 7000, 65535}),
-			user:       g.pick([]string{"", "", "user", "ünï"}),
-			token:      g.pick([]string{"", "secret", `p"w\d`, "日本"}),
-			logLevel:   g.pick([]string{"", "debug", "info"}),
-			poolCount:  g.pickInt([]int64{0, 1, 5}),
-			protocol:   g.pick([]string{"", "tcp", "kcp", "quic", "websocket"}),
-			webPort:    g.pickInt([]int64{0, 7400}),
-		}
-		var orig []v1.ProxyConfigurer
-		np := 1 + g.intn(3)
-		tree := g.commonTree(cl)
+		// ---- client document: common section, proxies, visitors
+		cc, tree := g.clientCommon()
+		want := []string{coqOfAny(&cc)}
+		ccDone := cc
+		ccDone.Complete()
+		wantDone := []string{coqOfAny(&ccDone)}
 		plist := []obj{}
-		for k := 0; k < np; k++ {
+		for k := 0; k < 1+g.intn(3); k++ {
 			c := g.proxyCfg(g.pick(proxyTypes))
-			orig = append(orig, c)
 			plist = append(plist, g.proxyTree(c))
+			want = append(want, coqCfg(c))
+			e := cloneProxy(c)
+			e.Complete(cc.User)
+			wantDone = append(wantDone, coqCfg(e))
 		}
 		tree = append(tree, kv{"proxies", plist})
-		docs := render(tree)
-		st["documents"]++
-		wantProxies := []string{}
-		for _, c := range orig {
-			wantProxies = append(wantProxies, coqCfg(c))
+		if g.chance(0.7) {
+			vlist := []obj{}
+			for k := 0; k < 1+g.intn(2); k++ {
+				vc, vo := g.visitorCfg(g.pick(visitorTypeNames))
+				vlist = append(vlist, vo)
+				want = append(want, coqVisitor(vc))
+				e := cloneVisitor(vc)
+				e.Complete(&ccDone)
+				wantDone = append(wantDone, coqVisitor(e))
+			}
+			tree = append(tree, kv{"visitors", vlist})
 		}
-		wantCommon := fmt.Sprintf("addr=%q port=%d user=%q token=%q level=%q pool=%d proto=%q web=%d", cl.serverAddr, cl.serverPort,
-			cl.user, cl.token, cl.logLevel, cl.poolCount, cl.protocol, cl.webPort)
+		d.checkDoc(g, clientKind, tree, strings.Join(want, "\n"), strings.Join(wantDone, "\n"), i%2 == 0, st, levels, dir)
 
-		// LoadConfigure, both modes, three formats: identical to each other and to the source
-		for _, strict := range []bool{false, true} {
-			for _, f := range formatNames {
-				var all v1.ClientConfig
-				if err := config.LoadConfigure(docs[f], &all, strict); err != nil {
-					d.fail("format-load:"+f, fmt.Sprintf("a valid %s document is rejected (strict=%v): %v", f, strict, err), string(docs[f]))
-					continue
-				}
-				st["loads"]++
-				gotCommon := fmt.Sprintf("addr=%q port=%d user=%q token=%q level=%q pool=%d proto=%q web=%d", all.ServerAddr, all.ServerPort,
-					all.User, all.Auth.Token, all.Log.Level, all.Transport.PoolCount, all.Transport.Protocol, all.WebServer.Port)
-				if gotCommon != wantCommon {
-					d.fail("format-structure:"+f+":common", "the common section loaded from "+f+" differs from the logical configuration",
-						gotCommon+" vs "+wantCommon+"\n"+string(docs[f]))
-				}
-				if len(all.Proxies) != len(orig) {
-					d.fail("format-structure:"+f+":count", "number of proxies differs", string(docs[f]))
-					continue
-				}
-				for k := range orig {
-					got := coqCfg(all.Proxies[k].ProxyConfigurer)
-					if got != wantProxies[k] {
-						d.fail("format-structure:"+f+":"+orig[k].GetBaseConfig().Type+":"+
-							firstDiff(reflect.ValueOf(orig[k]).Elem(), reflect.ValueOf(all.Proxies[k].ProxyConfigurer).Elem(), ""),
-							"the structure loaded from "+f+" differs from the logical configuration it was written from",
-							"want "+wantProxies[k]+" got "+got+"\n"+string(docs[f]))
-					}
-				}
-			}
-		}
-
-		// the file entry point (template rendering, Complete): three formats agree, defaults applied identically
-		if i%3 == 0 {
-			var dumps []string
-			for _, f := range formatNames {
-				p := filepath.Join(dir, "doc."+f)
-				if f == "toml" && g.chance(0.5) {
-					p = filepath.Join(dir, "doc.ini") // the extension must not matter
-				}
-				_ = os.WriteFile(p, docs[f], 0o644)
-				cc, pcs, _, legacy, err := config.LoadClientConfig(p, true)
-				_ = os.Remove(p)
-				if err != nil || legacy {
-					d.fail("format-file-load:"+f, fmt.Sprintf("LoadClientConfig rejects a valid %s file: %v legacy=%v", f, err, legacy), string(docs[f]))
-					continue
-				}
-				items := []string{commonDump(cc)}
-				for _, pc := range pcs {
-					items = append(items, coqCfg(pc))
-				}
-				dumps = append(dumps, strings.Join(items, "\n"))
-			}
-			st["file_loads"]++
-			for k := 1; k < len(dumps); k++ {
-				if dumps[k] != dumps[0] {
-					d.fail("format-defaults-differ:"+formatNames[k], "LoadClientConfig (defaults applied) gives different structures for toml and "+formatNames[k],
-						dumps[0]+"\n--- vs ---\n"+dumps[k])
-				}
-			}
-			// defaults: the completed proxies equal the source completed with the same user prefix
-			if len(dumps) == 3 {
-				items := []string{}
-				for _, c := range orig {
-					cp := reflect.New(reflect.TypeOf(c).Elem())
-					cp.Elem().Set(reflect.ValueOf(c).Elem())
-					e := cp.Interface().(v1.ProxyConfigurer)
-					e.Complete(cl.user)
-					items = append(items, coqCfg(e))
-				}
-				got := strings.SplitN(dumps[0], "\n", 2)
-				if len(got) == 2 && got[1] != strings.Join(items, "\n") {
-					d.fail("format-defaults", "proxies returned by LoadClientConfig differ from the logical configuration completed with the user prefix",
-						got[1]+"\n--- vs ---\n"+strings.Join(items, "\n"))
-				}
-			}
-		}
-
-		// an unknown key at one nesting level
-		var spots []string
-		probe := deepCopy(tree)
-		walkObjs(&probe, "top", func(label string, at *obj) { spots = append(spots, label) })
-		target := g.intn(len(spots))
-		bad := deepCopy(tree)
-		idx := 0
-		label := ""
-		walkObjs(&bad, "top", func(l string, at *obj) {
-			if idx == target {
-				label = l
-				pos := g.intn(len(*at) + 1)
-				nk := kv{g.pick([]string{"unknownField", "remotePorts", "Name2", "x-y"}), g.pick([]string{"v", ""})}
-				*at = append((*at)[:pos], append(obj{nk}, (*at)[pos:]...)...)
-			}
-			idx++
-		})
-		// normalise the level label (drop proxy indices) for the statistics
-		levels[label]++
-		bdocs := render(bad)
-		for _, f := range formatNames {
-			var all v1.ClientConfig
-			if err := config.LoadConfigure(bdocs[f], &all, true); err == nil {
-				d.fail("strict-accepts-unknown:"+f+":"+label, "strict mode accepts a document with an unknown field at "+label+" ("+f+")", string(bdocs[f]))
-			} else {
-				st["strict_unknown_rejected"]++
-			}
-			var all2 v1.ClientConfig
-			if err := config.LoadConfigure(bdocs[f], &all2, false); err != nil {
-				d.fail("nonstrict-rejects-unknown:"+f+":"+label, "non-strict mode rejects a document with an unknown field at "+label+" ("+f+"): "+err.Error(), string(bdocs[f]))
-			} else {
-				st["nonstrict_unknown_ignored"]++
-				for k := range orig {
-					if k < len(all2.Proxies) && coqCfg(all2.Proxies[k].ProxyConfigurer) != wantProxies[k] {
-						d.fail("nonstrict-unknown-changes-structure:"+f, "an ignored unknown field changes the loaded structure", string(bdocs[f]))
-					}
-				}
-			}
+		// ---- server document
+		if i%2 == 1 {
+			sc, stree := g.serverCfgDoc()
+			scDone := sc
+			scDone.Complete()
+			d.checkDoc(g, serverKind, stree, coqOfAny(&sc), coqOfAny(&scDone), i%4 == 1, st, levels, dir)
 		}
 	}
+	fl := d.runFlags(g, n/2+6, dir)
+	tp := d.runTemplates(g, n/2+6)
 	out := map[string]any{}
 	for k, v := range st {
 		out[k] = v
 	}
 	out["unknown_field_levels"] = levels
+	out["flags"] = fl
+	out["templates"] = tp
 	return out
 }
